@@ -63,6 +63,7 @@ type c15Plan struct {
 	StallMs     int
 	SlowChunk   int
 	SlowSleepMs int
+	OneTrack    bool // rtsp / wsrtsp: SETUP only the first track of an audio+video stream
 }
 
 type c15Client struct {
@@ -359,6 +360,9 @@ func (cl *c15Client) handshake(s *srv.Server) (left []byte, err error) {
 		}
 		session := ""
 		for i, ctl := range controls {
+			if p.OneTrack && i > 0 {
+				break
+			}
 			u := ctl
 			if !strings.HasPrefix(ctl, "rtsp://") {
 				u = url + "/" + ctl
@@ -718,6 +722,13 @@ func c15Run(c *fw.Ctx, i int) {
 		for j := 0; j < 4; j++ {
 			plans = append(plans, c15Plan{Kind: []string{"wsflv", "wsrtsp"}[j%2], Mode: []string{"stall-slow", "stall-resume"}[j/2], Stream: "a", StallAt: []int{1, 5000, 60000, 200000}[r.Intn(4)],
 				StallMs: 1200 + r.Intn(2500), SlowChunk: []int{2048, 4096, 8192}[r.Intn(3)], SlowSleepMs: 2 + r.Intn(5)})
+		}
+	}
+	if i%2 == 1 {
+		// players that set up one track only of the audio+video stream and then stop reading: what lal
+		// does not send them (the other track) must not count as "still writing" in the liveness sweep
+		for _, kd := range []string{"rtsp", "wsrtsp"} {
+			plans = append(plans, c15Plan{Kind: kd, Mode: "stall", Stream: "a", StallAt: []int{1, 5000, 60000}[r.Intn(3)], OneTrack: true})
 		}
 	}
 	c.Describe("k=%d write_timeout_ms=%d queue=%d plans=%+v", k, wto, queue, plans)
